@@ -94,6 +94,8 @@ func checkC02(r *Run) propMeta {
 	checkClauseSymbolsAlwaysDeclared(r, op)
 	checkModelBoundsNotOverridden(r, op, r.MustPkg("cypher/models/pgsql/translate"))
 	checkPlanBoundDomain(r, op, r.MustPkg("cypher/models/pgsql/translate"))
+	checkReorderDependencyCoverage(r, op)
+	checkPathOrderUnreversed(r, r.MustPkg("cypher/models/pgsql/translate"))
 	r.Floor("C02-R1-guard-slice", 12)
 	return meta
 }
